@@ -238,12 +238,23 @@ def run_history(c):
     w, p = c04.fresh((m, "getPubKey"))
     h = mw.handler(p)
     pending_repair = False
+    after_timeout = False
     nfaults = 0
     labels = ["history"]
     for n, s in enumerate(c["steps"]):
         key = (m, s["r"])
         f = s["fault"]
         where = "history step %d %s" % (n, s)
+        if after_timeout:
+            # whether the request after a time-out repairs the link is not prescribed: it is
+            # served without a fault and only has to succeed
+            after_timeout = False
+            rep, exc, ev, out = serve(h, w, key)
+            if exc is not None or rep is None or rep["errorcode"] != 0:
+                raise Violation("history-after-timeout-not-served", "%s -> %r %r" % (
+                    where, out[:80], exc))
+            labels.append("after-timeout")
+            continue
         if pending_repair:
             w.connect_failures = s["k"]
         mark = len(w.log)
@@ -288,6 +299,8 @@ def run_history(c):
                 raise Violation("history-faulted-code", "%s -> %r" % (where, rep))
             if f["kind"] != "timeout":
                 pending_repair = True
+            else:
+                after_timeout = True
         else:
             if rep["errorcode"] != 0:
                 raise Violation("history-unfaulted-not-served", "%s -> %r" % (where, rep))
